@@ -12,7 +12,7 @@ reg("C16",
     packages=["sweeps"], bin="sweeps", level="exploration", engine="E4 sweeps",
     technique="bounded exhaustive enumeration of strings through every entry path of the real code, judged by a hand-written recogniser (reference model)",
     design_ref="DESIGN.md §3 C16",
-    explanation="every string over a boundary alphabet up to a length bound, every rid-like symbol word and template x component product, and every component 4-tuple is run through all 8 entry paths of the real types and compared with DFAs written from the specification grammar",
+    explanation="every string over a boundary alphabet up to a length bound, every rid-like symbol word and template x component product, and every component 4-tuple is run through all 8 entry paths of the real types and compared with DFAs written from the specification grammar; dotted components whose head / tail is a valid neighbour component",
     level_text="Exhaustive exploration of a closed, finite string space (all strings up to the bound over an alphabet with one representative per character class and every class boundary) on the real parsing/deserialization entry points, against an independent recogniser. Exact validation is a per-string predicate with a tiny automaton, so small-scope exhaustiveness over class representatives is the right strength.",
     level_note="Trusted: the hand-written recognisers (40 lines, from the Conjure spec grammar); serde_json/serde_smile for rendering the probe documents. Strings longer than the bound and characters outside the alphabet are not covered.")
 
@@ -32,7 +32,7 @@ reg("C12",
     ],
     technique="bounded exhaustive enumeration of value grids/ranges through to_plain/from_plain of the real code, judged by round-trip identity and an independent PLAIN spelling model",
     design_ref="DESIGN.md §3 C12",
-    explanation="per PLAIN-capable runtime type every value of a grid or full range (thorough: all 2^32 i32, all 2^32 f32-widened doubles) is formatted and parsed back; text is compared with independent encoders (Base64, uuid, decimal) or grammar checkers (number, RFC 3339)",
+    explanation="per PLAIN-capable runtime type every value of a grid or full range (thorough: all 2^32 i32, all 2^32 f32-widened doubles) is formatted and parsed back; text is compared with independent encoders (Base64, uuid, decimal) or grammar checkers (number, RFC 3339); by-reference spelling (&T, &&T); DoubleKey",
     level_text="Exhaustive exploration of complete ranges where feasible (bool, i32, byte strings <= 2, f32-widened doubles) and of class-boundary grids elsewhere, on the real formatting/parsing code against an independent spelling model.",
     level_note="Trusted: chrono's field constructors to build instants; std float parsing as the judge of 'same number'. Part 1 runs the compiled generated enums and aliases of PLAIN primitives (value -> to_plain -> from_plain, spelling model).")
 
@@ -40,7 +40,7 @@ reg("C01",
     packages=["shapes"], bin="shapes", level="model_checking", engine="E1 shapes",
     technique="explicit-state enumeration of (type shape, value) states up to a depth bound, each executed on the real serializers/deserializers (all entry points x sources) and judged by an independent wire model",
     design_ref="DESIGN.md §3 C01",
-    explanation="all shapes of the Conjure type grammar up to the depth bound x value sets; each state is serialized through 4 JSON + 2 Smile entry points and deserialized through client/server x str/slice/reader(short reads)/mut-slice; JSON and Smile trees read back with plain serde_json/serde_smile are compared with the reference encoding",
+    explanation="all shapes of the Conjure type grammar up to the depth bound x value sets; each state is serialized through 4 JSON + 2 Smile entry points and deserialized through client/server x str/slice/reader(short reads)/mut-slice; JSON and Smile trees read back with plain serde_json/serde_smile are compared with the reference encoding; a size dimension (binary / string / collection lengths around every power of two and 3-byte block boundary)",
     level_text="Bounded exhaustive exploration of the shape grammar (every re-wrapping point of the wrappers is reached in every nesting up to the bound) executed on the implementation itself, with a reference model of the wire encoding as oracle. There is no separate model to bind: every state is run on the real code.",
     level_note="Trusted: serde_json / serde_smile as readers of the produced bytes; the dynamic (Shape, Val) serde implementation (bound to derive/std impls by the static-twin conformance check); the reference encoders in vcommon::cmodel.")
 
@@ -52,7 +52,7 @@ reg("C05",
     ],
     technique="explicit-state enumeration of (shape, value, object node, position, injected value) states, each executed on the real client/server deserializers (JSON+Smile, all sources)",
     design_ref="DESIGN.md §3 C05",
-    explanation="every shape with an object node up to the depth bound; an unknown field holding each of 12 JSON values is inserted first/between/last into each object node (one and two injections); the document is read by every client and server path, dynamic structs and derive-based twins",
+    explanation="every shape with an object node up to the depth bound; an unknown field holding each of 12 JSON values is inserted first/between/last into each object node (one and two injections); the document is read by every client and server path, dynamic structs and derive-based twins; serde enum payloads as containers; generated part: an undeclared member in every object node of the valid documents of every generated type under every configuration, JSON and Smile",
     level_text="Bounded exhaustive exploration of nesting contexts x injection points on the implementation: every container path below deserialize_struct (seq, map value, option, newtype/alias, nested struct) is reached at every depth up to the bound, for JSON and Smile and every input source.",
     level_note="Trusted: the Conjure serializers to render the injected documents (guarded: a case is only judged if its un-injected document round-trips); derive-based twins bind the dynamic struct to serde derive. Part 1 injects an undeclared member into every object node of the valid documents of every generated type (objects, unions, aliases; every configuration incl. exhaustive) and reads them with the compiled generated code, JSON and Smile; the client value is compared with the one read from the document without the member.")
 
@@ -60,7 +60,7 @@ reg("C13",
     packages=["shapes"], bin="shapes", level="model_checking", engine="E1 shapes",
     technique="explicit-state enumeration of (shape, value) states, of JSON documents of a grammar, and of (document, shape) pairs, each executed on the real Any serializer/deserializer and compared with direct (non-Any) serialization/parsing",
     design_ref="DESIGN.md §3 C13",
-    explanation="A: value -> Any -> value and json(Any(v)) == json(v) for every (shape, value) incl. all integer widths, f32, char, unit, tuples, newtype/tuple structs, enums with all variant kinds, maps keyed by every scalar kind; B: every JSON document of a grammar to depth 3 -> Any -> JSON equivalent; C: every (document, shape) pair that parses directly must give the same value through Any",
+    explanation="A: value -> Any -> value and json(Any(v)) == json(v) for every (shape, value) incl. all integer widths, f32, char, unit, tuples, newtype/tuple structs, enums with all variant kinds, maps keyed by every scalar kind; B: every JSON document of a grammar to depth 3 -> Any -> JSON equivalent; C: every (document, shape) pair that parses directly must give the same value through Any; derive newtypes as map keys, types that read themselves through deserialize_any (untagged / tagged / flattened), value -> Smile -> Any -> value",
     level_text="Bounded exhaustive exploration of the value/shape grammar and of a JSON document grammar against a differential oracle (direct serialization / direct parsing by the same Conjure JSON code path), executed on the implementation.",
     level_note="Trusted: conjure-serde's direct JSON path as the reference for 'same document' / 'same coercions' (its own correctness is C01's business); plain serde_json::Value equality for document equivalence. JSON integers beyond 64 bits are outside the statement.")
 
@@ -72,7 +72,7 @@ reg("C17",
     ],
     technique="explicit-state enumeration of error definitions x parameter values, each executed on the real encode / Error::service* code and judged by a model of the encoding and of the safe/unsafe partition",
     design_ref="DESIGN.md §3 C17",
-    explanation="a dynamic ErrorType+Serialize value: one parameter of every shape x value (safe/unsafe, null-or-skipped); every definition over 6 parameter names x {undefined, safe, unsafe} x {scalar, list, absent optional}; every error code; each through encode, with_instance_id, Error::service, service_safe, propagated_service, propagated_service_safe",
+    explanation="a dynamic ErrorType+Serialize value: one parameter of every shape x value (safe/unsafe, null-or-skipped); every definition over 6 parameter names x {undefined, safe, unsafe} x {scalar, list, absent optional}; every error code; each through encode, with_instance_id, Error::service, service_safe, propagated_service, propagated_service_safe; by-reference constructions (&T, &&T); generated part: ~60 generated error definitions",
     level_text="Bounded exhaustive exploration of error definitions (all safe/unsafe/omitted interleavings in sorted-name order up to 6 names) and of parameter shapes/values, executed on the implementation against a reference model of the encoding rules and of the partition.",
     level_note="Trusted: the dynamic (Shape, Val) Serialize impl (bound to derive by the C01 twin conformance); Rust's f64 parser as judge of 'parses back to the same number'. Part 1 generates ~60 error definitions (every safe x unsafe partition size, every argument type, every code, keyword / camelCase names), compiles them and drives the generated types through ErrorType, encode and Error::service*.")
 
@@ -80,7 +80,7 @@ reg("C11",
     packages=["httpdirect"], bin="httpdirect", level="model_checking", engine="E3a httpdirect",
     technique="explicit-state enumeration of (Accept header list, ordered encoding registry) and (Content-Type, registry) states, each executed on the real negotiation code and compared with a declarative specification of permitted/optimal choices",
     design_ref="DESIGN.md §3 C11",
-    explanation="every Accept list of <= n items over 7 ranges x 8 q spellings + an unparsable item, rendered as one or two header lines, x all 15 ordered registries of json/smile/text-plain; reference model = the statement's declarative predicate (permitted, no better permitted, range-order then registration-order tie-break)",
+    explanation="every Accept list of <= n items over 7 ranges x 8 q spellings + an unparsable item, rendered as one or two header lines, x all 15 ordered registries of json/smile/text-plain; reference model = the statement's declarative predicate (permitted, no better permitted, range-order then registration-order tie-break); wildcard ranges with parameters; 3-item lists over a reduced alphabet in quick",
     level_text="Explicit-state model checking with 100% conformance: every state of the bounded header x registry space is run on ConjureRuntime and its answer compared with a specification-level oracle that is not the implementation's sort-and-select algorithm.",
     level_note="Trusted: the declarative oracle (about 80 lines); http::HeaderValue for carrying the header text. Where the statement is silent (no parsable range, malformed q, equal specificity with different q) both readings are accepted and counted separately.")
 
@@ -88,7 +88,7 @@ reg("C07",
     packages=["httpdirect"], bin="httpdirect", level="exploration", engine="E3a httpdirect",
     technique="bounded exhaustive enumeration of parameter values x positions x templates through the real URI builder and server-side decoders, judged by an independent RFC 3986 tokenizer/decoder",
     design_ref="DESIGN.md §3 C07",
-    explanation="every ASCII code point, UTF-8 boundary, look-alike string and reserved-character pair in every parameter position (and pairs of positions) of 7 path/query templates, plus URI lengths around the 65534 limit; each built URI is re-parsed, tokenized by a hand-written RFC 3986 model and decoded by path_param / parse_query_params / query_param",
+    explanation="every ASCII code point, UTF-8 boundary, look-alike string and reserved-character pair in every parameter position (and pairs of positions) of 7 path/query templates, plus URI lengths around the 65534 limit; each built URI is re-parsed, tokenized by a hand-written RFC 3986 model and decoded by path_param / parse_query_params / query_param; macro-client templates with literals and query keys of every encode-set level; every sequence of up to three optional / list / set query pushes; a 42-pair query",
     level_text="Exhaustive exploration over per-character alphabets in every position: URI structure preservation is a per-byte property of the encode set, so every ASCII byte in every position plus all pairs over the reserved alphabet decides it within the bound.",
     level_note="Trusted: the hand-written tokenizer/decoder; http::Uri for re-parsing. The macro client's own copy of the encode set (literals and query keys at expansion time) is covered by the loopback part when built.")
 
@@ -100,7 +100,7 @@ reg("C06",
     ],
     technique="deviation-bounded exhaustive exploration of body-stream histories (chunk splits, empty chunks, pending polls, stream errors) x bodies x Content-Types x size limits on the real request deserializers, judged by a reference acceptance predicate",
     design_ref="DESIGN.md §3 C06, §2.4",
-    explanation="per parameter type: valid documents, every truncation, 16 trailers, doubled documents, all JSON symbol strings up to the bound, Smile renderings; every stream history within the deviation bound plus uniform 1/2/3-byte chunkings; every Content-Type of an 11-value alphabet; limits 0/1/4/8/16/default; StdRequestDeserializer, OptionalRequestDeserializer, FromRequestDeserializer, BinaryRequestDeserializer; blocking and async",
+    explanation="per parameter type: valid documents, every truncation, 16 trailers, doubled documents, all JSON symbol strings up to the bound, Smile renderings; every stream history within the deviation bound plus uniform 1/2/3-byte chunkings; every Content-Type of an 11-value alphabet; limits 0/1/4/8/16/default; StdRequestDeserializer, OptionalRequestDeserializer, FromRequestDeserializer, BinaryRequestDeserializer; blocking and async; undeclared-member bodies and neighbouring-kind documents judged by rules independent of the deserializer under test; field-less objects; loopback part with the size-limit tag (1 kb / 2Ki boundaries, all 16 unit spellings read back from the generated code)",
     level_text="Fault enumeration over environment answers: every history of the body stream with at most k deviations from 'whole body in one chunk' (and every position of a stream error) is executed on the real deserializers; acceptance is compared with an independent 'exactly one document within the limit' predicate.",
     level_note="Trusted: plain serde_json/serde_smile as judges of 'one well-formed document'; conjure-serde's server deserializer for the value (C01/C02/C05's business). Part 1 (loopback) sends raw requests to the generated endpoints (incl. the size-limit tag) and checks the handler runs exactly once iff the body is valid.")
 
@@ -112,7 +112,7 @@ reg("C18",
     ],
     technique="deviation-bounded exhaustive exploration of response-stream histories x status x Content-Type x body on the real client response decoders (blocking and async), judged by a reference 'complete, correctly typed document' predicate",
     design_ref="DESIGN.md §3 C18, §2.4",
-    explanation="per return class (value, optional, list, set, map, unit, binary, optional binary): valid documents with unknown fields, every truncation, trailers, doubled documents; statuses 200/201/204; 11 Content-Type situations; every stream history within the deviation bound plus uniform chunkings; decode_*_response and ConjureResponseDeserializer; blocking and async verdicts must agree",
+    explanation="per return class (value, optional, list, set, map, unit, binary, optional binary): valid documents with unknown fields, every truncation, trailers, doubled documents; statuses 200/201/204; 11 Content-Type situations; every stream history within the deviation bound plus uniform chunkings; decode_*_response and ConjureResponseDeserializer; blocking and async verdicts must agree; 'one document' and scalar typing judged independently of the client deserializer, neighbouring-kind documents; loopback part over the generated blocking / async clients",
     level_text="Fault enumeration over environment answers: every history of the response stream with at most k deviations (including a stream error at every position) is executed on the real decoders; a value may only come from a 204 (empty value) or from a complete document under the requested Content-Type.",
     level_note="Trusted: conjure-serde's client deserializer (client_from_slice) as the reference for 'one well-formed document of the return type'. Content-Types that are the requested type in another spelling are treated as unclear (error or the correct value accepted). Part 1 (loopback) drives the generated blocking and async client methods over a scripted transport.")
 
@@ -120,7 +120,7 @@ reg("C04",
     packages=["httploop"], bin="httploop", level="exploration", engine="E3b httploop",
     technique="bounded exhaustive enumeration of argument and return values over per-position alphabets through the real generated clients and endpoints (blocking and async) joined by a loopback transport, with an identity oracle (handler invoked once with equal arguments; client gets the handler's value)",
     design_ref="DESIGN.md §3 C04",
-    explanation="a 'universal' service (every parameter kind x type class, header and cookie auth, optional/alias/collection/union/any/binary bodies and returns, size-limited body, context) is generated from ir/http.json at build time; every ASCII code point, UTF-8 boundary and reserved-character pair in every string position, pairs of positions, one-hot scalar alphabets, collections of 0..3, under three body chunkings; the router binds raw path segments as the PathParams contract documents",
+    explanation="a 'universal' service (every parameter kind x type class, header and cookie auth, optional/alias/collection/union/any/binary bodies and returns, size-limited body, context) is generated from ir/http.json at build time; every ASCII code point, UTF-8 boundary and reserved-character pair in every string position, pairs of positions, one-hot scalar alphabets, collections of 0..3, under three body chunkings; the router binds raw path segments as the PathParams contract documents; a macro part (hand-written conjure_client traits against conjure_endpoints traits: custom encoders / decoders, optional and sequence parameters, renamed path parameters, request context, per-endpoint body limit); a Smile leg (Smile and JSON bodies x 9 Accept headers: the response is in the negotiated encoding); a chunking with an empty chunk after every chunk",
     level_text="Exhaustive exploration over per-position alphabets with an identity oracle, executed on the generated code of the current tree (regenerated by build.rs) and the runtime crates; both flavours.",
     level_note="Trusted: the loopback router (60 lines; routing is outside the repository); conjure-serde JSON text as the canonical rendering on both sides. Macro-derived clients/endpoints with custom encoders are covered by the macro part of this engine when built; Smile negotiation is exercised by C11 and the Smile replay.")
 
@@ -128,7 +128,7 @@ reg("C19",
     packages=["httploop"], bin="httploop", level="exploration", engine="E3b httploop",
     technique="bounded exhaustive enumeration of per-argument corruption states (valid/absent/repeated/unparsable/invalid text/auth faults) over all arguments of generated and macro-derived endpoints, executed on the real endpoints (blocking and async), judged by the error-code / param-name rule",
     design_ref="DESIGN.md §3 C19",
-    explanation="8 endpoints of the generated universal service (argument names fooBar, type, strSet, xOptInt ... whose Rust spelling differs from the declared name) and a hand-written #[conjure_endpoints] service with and without log_as; every assignment of states with at most k deviating arguments plus every subset of arguments corrupted at once; raw requests go straight to the routed endpoint",
+    explanation="8 endpoints of the generated universal service (argument names fooBar, type, strSet, xOptInt ... whose Rust spelling differs from the declared name) and a hand-written #[conjure_endpoints] service with and without log_as; every assignment of states with at most k deviating arguments plus every subset of arguments corrupted at once; raw requests go straight to the routed endpoint; auth headers shorter than their prefix",
     level_text="Exhaustive exploration of the corruption-assignment space per endpoint on the real generated/macro code: decoding failures are per-argument and order-dependent, so all subsets plus all fault kinds per argument (pairs/triples) cover the interactions within the bound.",
     level_note="Trusted: the raw request builder and the loopback router. When several arguments are undecodable any of their declared names is accepted. Lossy decoding of non-UTF-8 escapes in string path parameters is not judged.")
 
@@ -136,7 +136,7 @@ reg("C09",
     packages=["httploop"], bin="httploop", level="exploration", engine="E3b httploop",
     technique="bounded exhaustive enumeration of requests (per-argument states with taint-carrying data) against generated and macro-derived endpoints, with a taint-search oracle over every safe-to-log channel",
     design_ref="DESIGN.md §3 C09",
-    explanation="the C19 request space (every assignment of valid/absent/repeated/unparsable/invalid-text/auth-fault states with at most k deviations, all subsets) over endpoints with every mix of safe and non-safe path/query/header/body arguments and header/cookie auth; each datum embeds a position-specific taint token; SafeParams, Error::safe_params and safe cause messages are searched (raw, base64, lower-case); safe arguments must appear under their declared names; BearerToken Debug must be one constant",
+    explanation="the C19 request space (every assignment of valid/absent/repeated/unparsable/invalid-text/auth-fault states with at most k deviations, all subsets) over endpoints with every mix of safe and non-safe path/query/header/body arguments and header/cookie auth; each datum embeds a position-specific taint token; SafeParams, Error::safe_params and safe cause messages are searched (raw, base64, lower-case); safe arguments must appear under their declared names; BearerToken Debug must be one constant; non-interference: with only the text of an undecodable non-safe argument varied (4 variants) no safe channel may change; safe arguments decoded before a failure must be recorded",
     level_text="Exhaustive exploration of the request-state space with an information-flow (taint search) oracle on the real endpoint code, blocking and async.",
     level_note="Trusted: the taint tokens are distinctive strings no constant message contains; a leak through a transformation other than identity/base64/case-folding would be missed. Generated `safe` markers themselves are C08's business.")
 
@@ -144,7 +144,7 @@ reg("C08",
     packages=["cgorder"], bin="cgorder", level="model_checking", engine="E5 cgorder",
     technique="explicit-state enumeration of type graphs x evaluation orders, each run through the real generator, with the generated `safe` markers compared against a greatest-fixed-point reference model and across orders",
     design_ref="DESIGN.md §3 C08",
-    explanation="all graphs of 2 named types (alias / object with 0-2 members / union with 1-2 members over declared and undeclared leaves and references through optional/list/set/map) and of 3 types forming cycles, x every permutation of the endpoints that first touch them; hundreds of disjointly named copies are packed into one IR per generator run; markers are read back from the emitted sync and async server traits with syn; plus the argument-level rule (explicit safety, legacy marker, tag) over 14 argument types x 10 declarations",
+    explanation="all graphs of 2 named types (alias / object with 0-2 members / union with 1-2 members over declared and undeclared leaves and references through optional/list/set/map) and of 3 types forming cycles, x every permutation of the endpoints that first touch them; hundreds of disjointly named copies are packed into one IR per generator run; markers are read back from the emitted sync and async server traits with syn; plus the argument-level rule (explicit safety, legacy marker, tag) over 14 argument types x 10 declarations; map<enum,T> members; tag and marker look-alikes in the argument table",
     level_text="Explicit-state model checking of the log-safety computation: every state (graph, order) of the bounded space is executed on the real generator and compared with a specification-level model (boolean greatest fixed point), with order-independence checked as a second oracle.",
     level_note="Trusted: the fixed-point model (30 lines); syn to read the generated traits. Graphs with more than 3 types or more than 2 members per type are assumed to behave like compositions of the enumerated ones.")
 
@@ -152,7 +152,7 @@ reg("C20",
     packages=["cgorder"], bin="cgorder", level="exploration", engine="E5 cgorder",
     technique="exhaustive enumeration of (program, configuration, entry point, owned hash seed) with every generation in a fresh process/directory under an LD_PRELOAD getrandom shim; byte-wise tree comparison and strace file-activity oracle",
     design_ref="DESIGN.md §3 C20",
-    explanation="the repository's IR files, the universal HTTP IR and a multi-package IR with errors/services/extensions; flag configurations (exhaustive, serializeEmptyCollections, stripPrefix, crate output with product/crate versions); library Config vs `conjure-rust generate`; S owned hash seeds; different output path and working directory per run; first run of each traced with strace",
+    explanation="the repository's IR files, the universal HTTP IR and a multi-package IR with errors/services/extensions; flag configurations (exhaustive, serializeEmptyCollections, stripPrefix, crate output with product/crate versions); library Config vs `conjure-rust generate`; S owned hash seeds; different output path and working directory per run; first run of each traced with strace; odd package names (path separators, dot-dot, absolute path) with file activity judged for failed generations too; every run reads its own copy of the definition through a different (absolute or relative) path",
     level_text="Exhaustive over the owned nondeterminism that exists (the process hash seed, made a harness choice by the shim) within the seed set, and over the configuration product; replayable because the seed is owned.",
     level_note="Trusted: the LD_PRELOAD shim reaches std's RandomState through libc getrandom (verified: the probe sees different HashMap orders per seed); strace for file activity. Seeds are not iteration orders: large tables are only sampled by the seed set, and the evidence says how many distinct orders the probe saw.")
 
@@ -160,7 +160,7 @@ reg("C02",
     packages=["cgorder"], cmd=["python3", "engines/e2/e2.py"], level="model_checking", engine="E2 genharness",
     technique="explicit-state enumeration of (IR type shape, configuration, JSON document) states: the real generator is run on the enumerated IR, its output compiled against /repo's crates and executed on every document, compared with a reference model of the Conjure wire format",
     design_ref="DESIGN.md §3 C02",
-    explanation="one object/union/alias per type shape up to depth 2 (21 leaves incl. references to enum/object/union/aliases/external), recursive and field-count families; per type the model's valid documents and every single-fault variant, all union member sequences <= 3; client and server JSON deserializers of the compiled generated types; configurations default and exhaustive+serializeEmptyCollections (thorough: all four, plus Smile round trips)",
+    explanation="one object/union/alias per type shape up to depth 2 (21 leaves incl. references to enum/object/union/aliases/external), recursive and field-count families; per type the model's valid documents and every single-fault variant, all union member sequences <= 3; client and server JSON deserializers of the compiled generated types; configurations default and exhaustive+serializeEmptyCollections (thorough: all four, plus Smile round trips); set members differing only in a list<double> prefix; integers up to 2^64-1 in the fault catalogue; quick runs the two configurations whose flags differ",
     level_text="Explicit-state model checking with a specification-level wire model (validity, canonical form, fault catalogue) as oracle; every state is executed on the code the current tree generates (regenerated and recompiled on every run).",
     level_note="Trusted: the wire model (engines/e2/model.py); rustc/cargo; the probe dispatcher. Inputs on which the specification is silent (null for collections / required any, 1.0 for integers, duplicates, relaxed datetime/uuid spellings) are in neither set.")
 
@@ -168,7 +168,7 @@ reg("C10",
     packages=["cgorder"], cmd=["python3", "engines/e2/e2.py"], level="model_checking", engine="E2 genharness",
     technique="explicit-state enumeration of (enum/union definition, configuration, document) states on the compiled output of the real generator, judged by the round-trip / classification rule of the statement",
     design_ref="DESIGN.md §3 C10",
-    explanation="enums with 1/2/3 values and unions with 0/1/2/3 variants (one named `unknown`) plus one union per leaf shape, default and exhaustive configuration; every listed value/variant document, unlisted enum names over [A-Z0-9_] up to the length bound and multi-word names, ill-formed names, unlisted variant names x 17 JSON payloads in both member orders; client, server and `any` paths",
+    explanation="enums with 1/2/3 values and unions with 0/1/2/3 variants (one named `unknown`) plus one union per leaf shape, default and exhaustive configuration; every listed value/variant document, unlisted enum names over [A-Z0-9_] up to the length bound and multi-word names, ill-formed names, unlisted variant names x 17 JSON payloads in both member orders; client, server and `any` paths; the same names / variants rendered as Smile; the emitted Unknown variant must exist exactly in the non-exhaustive configurations",
     level_text="Bounded exhaustive exploration of names and payloads on the generated code of the current tree, with the statement's rule as oracle (unlisted => preserved and classified unknown unless exhaustive; listed => itself; exhaustive => exactly the unlisted rejected).",
     level_note="Trusted: Debug output of the generated types to read the classification (prefix of the unknown variant), JSON equality for 'equivalent document'. An enum value named UNKNOWN and an empty enum are not valid Conjure and are not enumerated.")
 
@@ -180,7 +180,7 @@ reg("C14",
     ],
     technique="exhaustive enumeration of ordered pairs and triples over bounded value sets of the double wrapper, the DoubleOps compositions and the compiled generated types containing doubles, checked against the order / equality / hash laws",
     design_ref="DESIGN.md §3 C14",
-    explanation="part 0 (runtime): DoubleKey and DoubleOps over f64 / Option / Vec / BTreeMap compositions through educe-derived structs and a union-like enum built exactly like generated code, with 9 f64 bit patterns incl. three NaNs; part 1 (generated): every generated object / union / alias of the E2 type space that contains a double (directly, in optionals, lists, sets, map keys/values, aliases, nested objects), up to 13 values per type from JSON; all ordered pairs and triples",
+    explanation="part 0 (runtime): DoubleKey and DoubleOps over f64 / Option / Vec / BTreeMap compositions through educe-derived structs and a union-like enum built exactly like generated code, with 9 f64 bit patterns incl. three NaNs; part 1 (generated): every generated object / union / alias of the E2 type space that contains a double (directly, in optionals, lists, sets, map keys/values, aliases, nested objects), up to 13 values per type from JSON; all ordered pairs and triples; single-member unions with doubles, unlisted variants in the law documents",
     level_text="Exhaustive checking of the algebraic laws (reflexive, eq <=> cmp Equal, antisymmetric, transitive, NaN greatest, eq => same hash, partial_cmp and operators agree with cmp, set/map lookups, deserialize-twice equality) over every pair and triple of a bounded value set per type, on the real runtime code and on the compiled output of the real generator.",
     level_note="Trusted: the law checker (vcommon::laws); values outside the alphabet behave like their class representative. NaN payload/sign differences are only reachable in the runtime part.")
 
@@ -188,6 +188,6 @@ reg("C03",
     packages=["cgorder"], cmd=["python3", "engines/e2/e2.py"], level="exploration", engine="E2 genharness",
     technique="exhaustive enumeration of IR programs from a grammar (type shapes x positions, names x positions, recursion, packages x stripPrefix, service features, configurations), each run through the real generator and type-checked by rustc against /repo's crates",
     design_ref="DESIGN.md §3 C03",
-    explanation="every type shape up to depth 2 as object field / union variant / alias target / error argument / endpoint body and return; PLAIN-capable types as path, query (single/optional/list/set) and header parameters; recursion families; one program per (name, position) for every Rust keyword and every identifier the generated code uses (fields, variants, endpoints, arguments, error arguments, package segments, types, enum values); nested packages x 6 stripPrefix values; service features (auth kinds, request context, binary bodies/returns, size limits, docs with code fences, markers, tags); flag configurations; one full generated crate",
+    explanation="every type shape up to depth 2 as object field / union variant / alias target / error argument / endpoint body and return; PLAIN-capable types as path, query (single/optional/list/set) and header parameters; recursion families; one program per (name, position) for every Rust keyword and every identifier the generated code uses (fields, variants, endpoints, arguments, error arguments, package segments, types, enum values); nested packages x 6 stripPrefix values; service features (auth kinds, request context, binary bodies/returns, size limits, docs with code fences, markers, tags); flag configurations; one full generated crate; one full crate per non-empty subset of {types, errors, services}; externals with every primitive and collection fallback in every position; names the staged-builder derive and the macros emit; regex path parameters; request context next to safe arguments",
     level_text="Exhaustive exploration of a program grammar that under-approximates the Conjure compiler's language: each program is generated in its own process (so a generation failure is attributable) and the emitted module trees are type-checked with cargo check; errors are attributed to the generating IR item through the one-type-per-file layout.",
     level_note="Trusted: rustc/cargo check as the oracle for 'compiles'; only IR known to be valid Conjure is enumerated. Compilation of executed code paths is additionally exercised by the C02/C10/C14 builds and the loopback engine.")
